@@ -47,12 +47,6 @@ func (p *Probe) since(pos int) []string {
 	return append([]string(nil), p.log[pos:]...)
 }
 
-func (p *Probe) subsCreated() int {
-	p.mu.Lock()
-	defer p.mu.Unlock()
-	return len(p.subs)
-}
-
 // ---- plain calls: 0, 1, 2 arguments, optional argument, context, no result, error result
 
 func (p *Probe) Ping() string { p.enter("ping"); return "pong" }
